@@ -125,4 +125,39 @@ def qstep (cap : Nat) (q : QSt) : QAction → Option QSt
 def qrun (cap : Nat) (q : QSt) (as : List QAction) : QSt :=
   as.foldl (fun q a => (qstep cap q a).getD q) q
 
+/-! Master fail-over. What survives a master is the repository: the registered (ephemeral) live-node
+keys, the database configs and the persisted shard assignments. A new master starts from
+`NewStorageState()` (empty; `newStorageCluster` reads nothing) and `StateMachineFactory.Start`
+hands it one event per key: live nodes, then database configs, then shard assignments. -/
+structure Repo where
+  live : List Nat
+  cfgs : List Nat
+  asgs : List (Nat × Assignment)
+
+/-- the events `StateMachineFactory.Start` emits for a repository, in its order -/
+def repoEvents (r : Repo) : List Event :=
+  r.live.map .nodeUp ++ r.cfgs.map .dbCfg ++ r.asgs.map (fun p => .assignChanged p.1 p.2)
+
+/-- the state of the master that takes over; `old` is the previous master's state (not used:
+nothing of it is carried over) -/
+def failover (_old : St) (r : Repo) : St := run St.init (repoEvents r)
+
+/-! The etcd watches: every key has its own stream of events; the streams of different keys reach
+the manager in an arbitrary interleaving, each stream in order. -/
+inductive Key
+  | node (id : Nat)
+  | cfg (db : Nat)
+  | asg (db : Nat)
+  deriving DecidableEq, Repr
+
+def Event.key : Event → Key
+  | .nodeUp id => .node id
+  | .nodeDown id => .node id
+  | .dbCfg db => .cfg db
+  | .dropDb db => .cfg db
+  | .assignChanged db _ => .asg db
+
+/-- the stream of key `k` inside a delivery order -/
+def streamOf (k : Key) (es : List Event) : List Event := es.filter (fun e => e.key = k)
+
 end LinVerif.Master
